@@ -9,15 +9,19 @@ observations equal the model's.
 * `ha_orphan_exleader_refuted`   the lease is lost by a LIVING leader (renew deadline passed): client-go's `Run`
                                  returns, go-dcp never starts it again; the old leader keeps `1/3` for ever while the
                                  new leader numbers the others `1/2`, `2/2`: two live instances hold number 1.
-* `ha_orphan_follower_refuted`   one heartbeat body of a follower cannot reach the leader: `RemoveLeader`; nothing but a
-                                 leader CHANGE re-establishes `leaderService`: the follower is never admitted again.
+* `ha_orphan_follower_refuted`   finding F17, FIXED by commit 39ec43d - a statement about the code BEFORE that commit
+                                 (`runOld`: `hbFollowOld`): one heartbeat body of a follower cannot reach the leader:
+                                 `RemoveLeader`; nothing but a leader CHANGE re-established `leaderService`: the follower
+                                 was never numbered again.  `ha_orphan_follower_fixed`: the same schedule on the model of
+                                 the current code (`run`) numbers it one period after the partition heals
+                                 (for all schedules: `Props/C10Ha ha_partition_heals`).
 * `ha_remove_by_name_refuted`    a follower restarts and registers between the ping pass and the remove pass of the
                                  leader's heartbeat body: `Remove(name)` deletes the NEW entry; the follower's own pings
                                  work, so it never registers again.
 * `ha_handover_totals_refuted`   during a hand-over (new leader promoted and through its first monitor round before the
                                  followers' `OnNewLeader` callbacks ran) live instances hold different totals.
 * `ha_release_panics_refuted`    `ReleaseOnCancel`: a follower that sees the EMPTY holder dies (`NewIdentityFromStr("")`).
-* `observe_stopped`, `hbFollow_noleader`  why the first two are permanent, for every state.
+* `observe_stopped`, `hbFollow_noleader`  why the first is (and the second was) permanent, for every state.
 * `lead_keeps_services`          a follower registered BEFORE the promotion callback stays registered (what the code
                                  guarantees; a `RemoveAll` in `OnBecomeLeader` would break it).
 -/
@@ -95,22 +99,37 @@ theorem observe_stopped (s : State) (i : Id) (h : (s.insts i).el = El.stopped) :
 def exPartition : List Action :=
   exBoot3 ++ [.block 2 0] ++ exRound3 0 ++ [.unblock 2 0] ++ exRound3 0 ++ exRound3 0
 
-/-- **`ha_orphan_follower_refuted`**: the network is whole again, all three live, the leader unchanged and through
-two more monitor rounds - follower 2 has no `leaderService`, is not in the leader's list, and still holds `3/3` while
-the others hold `1/2`, `2/2`. -/
+/-- **`ha_orphan_follower_refuted`** (finding F17, fixed; the code BEFORE commit 39ec43d = `runOld`): the network is
+whole again, all three live, the leader unchanged and through two more monitor rounds - follower 2 has no
+`leaderService`, is not in the leader's list, and still holds `3/3` while the others hold `1/2`, `2/2`. -/
 theorem ha_orphan_follower_refuted :
-    liveIds (run (init 3) exPartition) = [0, 1, 2] ∧
-    (run (init 3) exPartition).blocked = [] ∧
-    (run (init 3) exPartition).holder = some (0, 10) ∧
-    ((run (init 3) exPartition).insts 2).leader = none ∧
-    ((run (init 3) exPartition).insts 0).services.map (·.name) = [1] ∧
-    ((run (init 3) exPartition).insts 0).info = some (1, 2) ∧
-    ((run (init 3) exPartition).insts 1).info = some (2, 2) ∧
+    liveIds (runOld (init 3) exPartition) = [0, 1, 2] ∧
+    (runOld (init 3) exPartition).blocked = [] ∧
+    (runOld (init 3) exPartition).holder = some (0, 10) ∧
+    ((runOld (init 3) exPartition).insts 2).leader = none ∧
+    ((runOld (init 3) exPartition).insts 0).services.map (·.name) = [1] ∧
+    ((runOld (init 3) exPartition).insts 0).info = some (1, 2) ∧
+    ((runOld (init 3) exPartition).insts 1).info = some (2, 2) ∧
+    ((runOld (init 3) exPartition).insts 2).info = some (3, 3) := by
+  decide
+
+/-- **`ha_orphan_follower_fixed`**: the same schedule on the model of the current code: while the partition lasts the
+follower keeps `leaderService` (connection broken) and its stale `3/3`, the others are renumbered `1/2`, `2/2`; the
+first period after the heal it registers again and the state is quiescent with `1/3`, `2/3`, `3/3`. -/
+theorem ha_orphan_follower_fixed :
+    ((run (init 3) (exBoot3 ++ [.block 2 0] ++ exRound3 0)).insts 2).leader = some { target := 0, broken := true } ∧
+    ((run (init 3) (exBoot3 ++ [.block 2 0] ++ exRound3 0)).insts 2).info = some (3, 3) ∧
+    ((run (init 3) (exBoot3 ++ [.block 2 0] ++ exRound3 0)).insts 0).info = some (1, 2) ∧
+    quiescentB (run (init 3) (exBoot3 ++ [.block 2 0] ++ exRound3 0 ++ exRound3 0)) 0 = false ∧
+    quiescentB (run (init 3) (exBoot3 ++ [.block 2 0] ++ exRound3 0 ++ exRound3 0 ++ [.unblock 2 0] ++ exRound3 0)) 0 = true ∧
+    ((run (init 3) exPartition).insts 0).info = some (1, 3) ∧
+    ((run (init 3) exPartition).insts 1).info = some (2, 3) ∧
     ((run (init 3) exPartition).insts 2).info = some (3, 3) := by
   decide
 
 /-- with `leaderService == nil` the follower part of the heartbeat body does nothing: only the next `OnBecomeFollower`
-    (a leader CHANGE) assigns a leader again -/
+    (a leader CHANGE) assigns a leader again (before commit 39ec43d a failed re-register led here; now only a failed
+    `NewClient` inside `OnBecomeFollower` and the promotion callback do) -/
 theorem hbFollow_noleader (s : State) (i : Id) (h : (s.insts i).leader = none) : hbFollow s i = s := by
   unfold hbFollow
   simp [h]
